@@ -21,6 +21,9 @@ unsigned vf_self() noexcept;                 // engine thread id
 void vf_check_leaks() noexcept;              // every heap block allocated so far must have been freed
 void vf_join_all() noexcept;                 // blocks until all other engine threads finished
 unsigned long vf_clock() noexcept;           // arbitrary non-decreasing clock
+void vf_thread_body(int k) noexcept;         // run the body of the k-th std::thread created so far on this engine thread
+void vf_wait_until_eq(const int* p, int v) noexcept;  // block until *p == v
+void vf_stop_here() noexcept;                // the calling engine thread finishes here (used to leave a run-loop)
 }
 #define VF_ASSERT(c, msg) __CPROVER_assert(static_cast<bool>(c), msg)
 #define VF_ASSUME(c) __CPROVER_assume(static_cast<bool>(c))
